@@ -217,6 +217,7 @@ def build_tu(job):
         parts.append(gen_struct(st.get('unit', 'kernels'), st['cls'], st.get('cls_targs'), st.get('cname')))
         if st.get('vec'):
             parts.append('VP_DECLARE_VEC(vec_%s, struct %s)' % (st.get('cname') or st['cls'], st.get('cname') or st['cls']))
+            parts.append('VP_DEFINE_VEC_OPS_STRUCT(vec_%s, struct %s)' % (st.get('cname') or st['cls'], st.get('cname') or st['cls']))
     if job.get('globals'):
         parts.append(job['globals'])
     for h in job.get('late_preludes', []):
